@@ -269,6 +269,8 @@ struct Loaded {
   long held_after_load = 0; // still allocated after the constructor returned/threw and the FILE was closed
   long expected_held = 0; // sizeof(Image) + pixel buffer on success, 0 on failure
   long held_after_destroy = 0; // still allocated after the Image was destroyed (must be 0)
+  int equal = -1; // operator== of the loaded image against `same_as` (1/0), -1 when not compared
+  int equal_rev = -1; // the same with the operands exchanged
 };
 
 inline size_t allocated_now() {
@@ -277,7 +279,8 @@ inline size_t allocated_now() {
 
 // Load the current contents of `mf` through phosg.
 // via: 0 = Image(FILE*), 1 = Image(const char*), 2 = Image(const std::string&)
-inline Loaded load_current(MemFile& mf, int via = 0) {
+// same_as: when given, the loaded image is also compared with it through phosg's operator== / operator!= (both operand orders)
+inline Loaded load_current(MemFile& mf, int via = 0, const phosg::Image* same_as = nullptr) {
   Loaded r;
   char path[64];
   snprintf(path, sizeof(path), "/proc/self/fd/%d", mf.fd);
@@ -304,6 +307,10 @@ inline Loaded load_current(MemFile& mf, int via = 0) {
     size_t b2 = allocated_now();
     r.pix = from_image(*img);
     size_t grown = allocated_now() - b2;
+    if (same_as) {
+      r.equal = (*img == *same_as) && !(*img != *same_as);
+      r.equal_rev = (*same_as == *img) && !(*same_as != *img);
+    }
     delete img;
     r.held_after_destroy = static_cast<long>(allocated_now()) - static_cast<long>(before) - static_cast<long>(grown);
   } else {
@@ -375,6 +382,7 @@ struct FileSpec {
   std::vector<size_t> row_starts; // offsets of the rows of the raster
   std::string label;
   bool nondefault = false; // a container variant phosg's own save() never produces
+  uint64_t maxval = 255; // the sample range the file declares (MAXVAL of a Netpbm file; 8-bit BMP channels: 255)
 };
 
 inline uint64_t bswap_n(uint64_t v, unsigned bytes) {
@@ -411,6 +419,7 @@ inline FileSpec build_variant(int variant, uint64_t vp, uint64_t seed, size_t w,
     uint64_t q = vp / (wide ? 10 : 8);
     Pix src = make_pix(w, h, alpha, cw, style, seed, maxval);
     fs.wide = wide;
+    fs.maxval = maxval;
     fs.nondefault = p7 ? (variant != V_P7_RGBA && variant != V_P7_RGBA_WIDE) : gray;
 
     std::string hdr;
